@@ -227,8 +227,9 @@ impl W16 {
 }
 
 /// advance_s: seconds the block time moves before the call; pre_epochs: number of (one day passes, someone calls the distributor's NewEpoch) rounds before it
-pub struct Payload { pub variant: &'static str, pub k: usize, pub msg: Value, pub funds: Vec<Coin>, pub advance_s: u64, pub pre_epochs: u32 }
-fn p(variant: &'static str, k: usize, msg: Value, funds: Vec<Coin>) -> Payload { Payload { variant, k, msg, funds, advance_s: 0, pre_epochs: 0 } }
+/// pre: a message the current owner of another contract sends before the call (part of the world's preparation, the same for every caller)
+pub struct Payload { pub variant: &'static str, pub k: usize, pub msg: Value, pub funds: Vec<Coin>, pub advance_s: u64, pub pre_epochs: u32, pub pre: Option<(C, Value)> }
+fn p(variant: &'static str, k: usize, msg: Value, funds: Vec<Coin>) -> Payload { Payload { variant, k, msg, funds, advance_s: 0, pre_epochs: 0, pre: None } }
 
 const DAY_S: u64 = 86_400;
 
@@ -248,7 +249,7 @@ pub fn payloads(x: &W16, c: C, a: &Addr) -> Vec<Payload> {
                 }
             }
         }
-        if changed && pl.variant == "UpdateConfig" { extra.push(Payload { variant: pl.variant, k: 2, msg, funds: pl.funds.clone(), advance_s: pl.advance_s, pre_epochs: pl.pre_epochs }); }
+        if changed && pl.variant == "UpdateConfig" { extra.push(Payload { variant: pl.variant, k: 2, msg, funds: pl.funds.clone(), advance_s: pl.advance_s, pre_epochs: pl.pre_epochs, pre: pl.pre.clone() }); }
     }
     v.extend(extra);
     v
@@ -299,6 +300,9 @@ fn payloads_fixed(x: &W16, c: C, a: &Addr) -> Vec<Payload> {
             p("AssertMinimumReceive", 0, json!({"assert_minimum_receive": {"asset_info": nat("uwhale"), "prev_balance": "0", "minimum_receive": "1", "receiver": me}}), vec![]),
             p("AddSwapRoutes", 0, json!({"add_swap_routes": {"swap_routes": [{"offer_asset_info": nat("uusdc"), "ask_asset_info": nat("uwhale"), "swap_operations": [op("uusdc", "uwhale")]}]}}), vec![]),
             p("RemoveSwapRoutes", 0, json!({"remove_swap_routes": {"swap_routes": [{"offer_asset_info": nat("uwhale"), "ask_asset_info": nat("uusdc"), "swap_operations": [op("uwhale", "uusdc")]}]}}), vec![]),
+            // the same removal after the pool factory has dropped the pair the stored route goes through (a stale route)
+            Payload { pre: Some((C::Factory, json!({"remove_pair": {"asset_infos": [nat("uusdc"), nat("uwhale")]}}))),
+                      ..p("RemoveSwapRoutes", 3, json!({"remove_swap_routes": {"swap_routes": [{"offer_asset_info": nat("uwhale"), "ask_asset_info": nat("uusdc"), "swap_operations": [op("uwhale", "uusdc")]}]}}), vec![]) },
         ],
         C::Incentive => vec![
             Payload { advance_s: DAY_S + 1, ..p("TakeGlobalWeightSnapshot", 0, json!({"take_global_weight_snapshot": {}}), vec![]) },
@@ -439,6 +443,11 @@ pub fn run_cell(out: &mut Out, phase: u8, c: C, variant: &str, k: usize, who: Wh
         if exec_json(&mut x.w.app, &Addr::unchecked(BOB), &d, &json!({"new_epoch": {}}), &[]).is_err() { out.count("pre_epoch_failed"); }
         let inc = x.w.incentive.clone();
         let _ = exec_json(&mut x.w.app, &Addr::unchecked(BOB), &inc, &json!({"take_global_weight_snapshot": {}}), &[]);
+    }
+    if let Some((pc, pmsg)) = &pl.pre {
+        let owner = x.who_addr(*pc, "", owner_who(*pc, phase));
+        let target = x.addr(*pc);
+        if exec_json(&mut x.w.app, &owner, &target, pmsg, &[]).is_err() { out.count("pre_message_failed"); }
     }
     if pl.advance_s > 0 { x.w.app.update_block(|b| { b.time = b.time.plus_seconds(pl.advance_s); b.height += pl.advance_s / 5; }); }
     let before = full_snapshot(&x);
